@@ -9,6 +9,26 @@ NOTE_COMMON = ("Trusted: Lean 4.33 kernel; axioms ⊆ {propext, Classical.choice
                "implementation by differential execution (sampled), not by proof. ")
 
 CLAIMED = {
+ "C07": dict(
+   text=("Lean theorems about a model of RegionCreator and of the escaper: generated region ids r0, r1, ... are pairwise distinct and never equal the default "
+         "region id 'bottom' (region_ids_distinct, via Nat.repr injectivity), every id assigned to an element is the default region or the id of a region "
+         "created for a layout of the document (region_refs_resolve), after cleanup every defined region is referenced (regions_all_referenced), escaped text "
+         "contains no '<' or '>' so content cannot open or close markup (escape_content_wf); default ids regenerated and pinned. Execution: sets returned by "
+         "every reader (incl. SCC programs) and API-built sets with XML metacharacters in texts, style values, class names and language codes, written by the "
+         "three DFXP writers under all option combinations and force=, parsed by lxml without recovery and checked for tt/div/p structure, reference "
+         "resolution, id uniqueness, unused regions."),
+   ref="§3 C07", technique="Lean 4 proof over the region/id/escape models + strict-XML-parser oracle on writer output",
+   note=NOTE_COMMON + "Well-formedness of the whole serialised document (bs4 prettify with the attribute-escaping formatter) is judged by lxml, not proved; class names that are not XML names are accepted by lxml's well-formedness check and not examined further."),
+ "C12": dict(
+   text=("Lean theorems over exact rationals: for a percentage layout the WebVTT settings are position = x + left padding, line = y + top padding, "
+         "size = width - left - right padding (vtt_settings_arith, vtt_settings_no_padding), align is omitted exactly for centred text and an absent alignment "
+         "means start (vtt_align_names), cue settings read from a WebVTT file are written back verbatim whatever the writer options (vtt_settings_verbatim). "
+         "The executable model of _convert_positioning (with relativization and fit-to-screen from C13) is compared with the writer's timing lines; an "
+         "independent denotation checks the parsed settings; layout groups give separate cues with equal times. DFXP: write + read of layouts at language / "
+         "caption / node level under relativize / fit options, effective layout per visible character with DFXP defaults (start / after)."),
+   ref="§3 C12", technique="Lean 4 proof (rational arithmetic, case analysis) + correspondence on cue settings + DFXP round-trip oracle",
+   note=NOTE_COMMON + "The DFXP round trip (RegionCreator + LayoutInfoScraper through bs4) is established by execution only. Known finding C12-dfxp-bare-text-node-layout is listed in known_findings.json."),
+
  "C11": dict(
    text=("Lean theorems: for EVERY element tree (any nesting of styled elements, text, breaks) the node list the DFXP/SAMI readers build has balanced, properly "
          "nested style nodes (reader_nodes_balanced, mutual structural induction over the tree); the SCC reader's italics are balanced for every instruction "
